@@ -33,7 +33,16 @@ func (r *RuleEntity) AcceptInteger(val int64) error {
 }
 
 
-func (r *RuleEntity) Execute(dc *context.DataContext) (interface{}, error, bool) {
+func (r *RuleEntity) Execute(dc *context.DataContext) (res interface{}, err error, returned bool) {
+	// a fault that is not raised inside an assignment or a call (a non-boolean condition,
+	// `!` on a non-boolean, an ill-typed operand of a condition, ...) panics in reflect;
+	// it must surface as the rule's error, not take down the caller or the process
+	defer func() {
+		if p := recover(); p != nil {
+			res, returned = nil, false
+			err = errors.New(fmt.Sprintf("rule \"%s\" failed: %+v", r.RuleName, p))
+		}
+	}()
 	v, e, b := r.RuleContent.Execute(dc, make(map[string]reflect.Value))
 	if v == reflect.ValueOf(nil) {
 		return nil, e, b
